@@ -227,3 +227,70 @@ func TestC18Silent(t *testing.T) {
 		return C18Silent{Subs: rapid.SampledFrom([]int{4, 6, 8}).Draw(t, "subs"), Reps: h.Scale(1, 3)}
 	}, judgeC18Silent)
 }
+
+// Growth with the number of subscribers: every subscriber is served completely (create, updates, release); what
+// is left behind must not grow with how many subscribers have been served.
+type C18Subs struct {
+	First int `json:"first"` // subscribers served before the base count is taken
+	More  int `json:"more"`  // subscribers served afterwards
+	RGs   int `json:"rgs"`
+}
+
+func judgeC18Subs(c C18Subs) *h.Verdict {
+	v := &h.Verdict{NonTrivial: true}
+	v.Label(fmt.Sprintf("subscribers>=%d", c.More/50*50))
+	var hst Hist
+	for i := 0; i < c.First+c.More; i++ {
+		hst.Subs = append(hst.Subs, Sub{Acct: [3]Acct{{1, 1 << 40}, {1, 1 << 40}, {1, 1 << 40}}})
+	}
+	w := NewWorld(hst)
+	serve := func(i int) *h.Verdict {
+		if r := w.Exec(Op{K: "create", S: i, Name: "smf", UUs: []UU{{RG: 1, Req: 10}}}); r.Status != 201 {
+			return v.Failf("valid-request-rejected/create", "create answered %d", r.Status)
+		}
+		var uus []UU
+		for rg := 1; rg <= c.RGs; rg++ {
+			uus = append(uus, UU{RG: int32(rg), Req: 10, Conts: []Cont{{Q: "online", Pm: 500}}})
+		}
+		for k := 0; k < 2; k++ {
+			r := w.Exec(Op{K: "update", S: i, UUs: uus})
+			if timedOut(r) {
+				v.Skipped = true
+				return v
+			}
+			if r.Status != 200 {
+				return v.Failf("valid-request-rejected/update", "update answered %d %.200s", r.Status, r.Body)
+			}
+		}
+		if r := w.Exec(Op{K: "release", S: i, UUs: []UU{{RG: 1, Req: 0, Conts: []Cont{{Q: "online", Pm: 0}}}}, Trig: "FINAL"}); r.Status != 204 {
+			return v.Failf("valid-request-rejected/release", "release answered %d", r.Status)
+		}
+		return nil
+	}
+	for i := 0; i < c.First; i++ {
+		if bad := serve(i); bad != nil {
+			return bad
+		}
+	}
+	base := settle()
+	for i := c.First; i < c.First+c.More; i++ {
+		if bad := serve(i); bad != nil {
+			return bad
+		}
+	}
+	rc := settle()
+	const slackConns, slackGo = 4, 12
+	if rc.conns > base.conns+slackConns {
+		return v.Failf("connections-grow-with-subscribers", "after %d more subscribers were served %d connections to the peers are open, before there were %d (bound: +%d)", c.More, rc.conns, base.conns, slackConns)
+	}
+	if rc.goroutines > base.goroutines+slackGo {
+		return v.Failf("tasks-grow-with-subscribers", "after %d more subscribers were served (created, updated, released) there are %d goroutines (%d Diameter watchdog/serve tasks), before there were %d (%d) (bound: +%d)", c.More, rc.goroutines, rc.diamGoroutines, base.goroutines, base.diamGoroutines, slackGo)
+	}
+	return v
+}
+
+func TestC18Subscribers(t *testing.T) {
+	h.Run(t, "C18", "subscribers", func(t *rapid.T) C18Subs {
+		return C18Subs{First: rapid.IntRange(3, 8).Draw(t, "first"), More: rapid.SampledFrom([]int{50, 100, h.Scale(150, 600)}).Draw(t, "more"), RGs: rapid.IntRange(1, 3).Draw(t, "rgs")}
+	}, judgeC18Subs)
+}
